@@ -13,8 +13,8 @@ CLAIM = ("slerp (with and without spin count k = -3..3), mix, lerp, gtx shortMix
          "the literal factor), symmetry slerp(x,y,t) = +-slerp(y,x,1-t) (two executions on swapped arguments; with spins up to the sign (-1)^k); on the linear-fallback branch the result is the affine blend whose squared "
          "norm differs from 1 by at most 12 eps for t in [-2,3]. lerp(qua) and the compatibility lerp are bit-exactly x*(1-a)+y*a per component (IEEE, operands of the commutative operations sorted) and the asserts of "
          "lerp(qua) are its only traps; the dual-quaternion lerp is x*(1-a) +- y*a; fastMix is the normalised blend (unit length, end points); shortMix clamps a to [0,1]; squad returns q1 / q2 at h = 0 / 1; "
-         "intermediate(q,q,q) = q (known finding: it returns the zero quaternion) and exp(qua) has the shape (cos|v|, sin|v| v/|v|). In IEEE arithmetic the argument of acos in slerp is shown to lie in [0, 1-eps] "
-         "whenever the acos branch is taken.")
+         "intermediate(q,q,q) = q (known finding: it returns the zero quaternion) and exp(qua) has the shape (cos|v|, sin|v| v/|v|). In IEEE arithmetic (bit-precise) mix, slerp and the spin overloads take the acos branch exactly when not (cosTheta > 1 - epsilon<T>) for "
+         "the epsilon of the element type, and the argument of acos in slerp lies in [0, 1-eps] whenever the acos branch is taken.")
 BOUNDS = ("rounding-erased semantics for the arc claims (code links: all real quaternions x, y - unit length is only needed by the code-free lemmas -, every real t; spin counts k in -3..3 as separate instantiations); "
           "float and double; the branch conditions (sign flip, fallback threshold 1-eps) are those of the exact values; lerp and the acos-domain claim are bit-precise over all inputs (acos-domain: every floating-point "
           "sum/product abstracted to an arbitrary float, the dot product assumed not NaN); squad only at h = 0 and h = 1; intermediate only for coinciding key frames (thorough tier: key frames equally spaced on a geodesic)")
@@ -77,6 +77,7 @@ def rv(x): return x.r if isinstance(x, RV) else x
 def fr(x): return z3.RealVal(str(Fraction(x)))
 EPS = {'f32': fr(2.0 ** -23), 'f64': fr(2.0 ** -52)}
 ZERO, ONE = z3.RealVal(0), z3.RealVal(1)
+TOL = {'f32': None, 'f64': 1e-10}      # relative tolerance of the numeric replay of the shape / blend goals (harness default for double, 1e-6, hides effects of the size of eps_float)
 def is_num(t):
     t = z3.simplify(t); return z3.is_rational_value(t) or z3.is_algebraic_value(t) or z3.is_int_value(t)
 
@@ -239,12 +240,12 @@ def arc_setup(res, T, kind='slerp', k=None):
     realtrig.trig_sum(res.ex, th, -u)
     return []
 
-def arc_goals(A, out, g0, g1, tag=''):
+def arc_goals(A, out, g0, g1, tol=None):
     """code links shared by slerp / mix / spins / shortMix; g0: guard of the arc branch, g1: guard of the linear fallback"""
     g = [('sin(theta)>0', RGoal('gt', A['S'], ZERO, g0)), ('cos(theta)==<x,z>', RGoal('eq', A['Cth'], A['C'], g0)),
          ('sin(theta-u)==S*cu-C*su', RGoal('eq', A['s1'], A['S'] * A['cu'] - A['Cth'] * A['su'], g0)), ('cos(theta-u)==C*cu+S*su', RGoal('eq', A['c1'], A['Cth'] * A['cu'] + A['S'] * A['su'], g0))]
-    g += [('shape[%d]: out*sin(theta)==sin(theta-u)*x+sin(u)*z' % j, RGoal('eq', out[j] * A['S'], A['s1'] * A['x'][j] + A['su'] * A['z'][j], g0)) for j in range(4)]
-    g += [('fallback[%d]: out==x*(1-t)+z*t' % j, RGoal('eq', out[j], A['x'][j] * (1 - A['t']) + A['z'][j] * A['t'], g1)) for j in range(4)]
+    g += [('shape[%d]: out*sin(theta)==sin(theta-u)*x+sin(u)*z' % j, RGoal('eq', out[j] * A['S'], A['s1'] * A['x'][j] + A['su'] * A['z'][j], g0, tol)) for j in range(4)]
+    g += [('fallback[%d]: out==x*(1-t)+z*t' % j, RGoal('eq', out[j], A['x'][j] * (1 - A['t']) + A['z'][j] * A['t'], g1, tol)) for j in range(4)]
     return g
 
 def job_slerp(t, fn='slerp', kind='slerp', k=None):
@@ -256,7 +257,7 @@ def job_slerp(t, fn='slerp', kind='slerp', k=None):
         def spec(i, o, T):
             A = arc(i, T, kind, k); out = [rv(v) for v in o[0]]
             fb = A['C'] > 1 - eps; nf = z3.Not(fb)
-            g = [('acos.arg==<x,z>', RGoal('eq', T.inv_arg('acos', 0, 0, A['C']), A['C'], nf))] + arc_goals(A, out, nf, fb)
+            g = [('acos.arg==<x,z>', RGoal('eq', T.inv_arg('acos', 0, 0, A['C']), A['C'], nf))] + arc_goals(A, out, nf, fb, TOL[t])
             if kind != 'mix': g.append(('short-arc: theta<=pi/2', RGoal('le', 2 * A['th'], T.pi(A['th']), nf)))
             return g
         def mutant(i, o, T):      # deliberately wrong specifications that must be refutable (thorough tier)
@@ -483,7 +484,7 @@ def job_shortmix(t):
             g += [('sqrt.arg==1-<x,z>^2', RGoal('eq', T.sqrt_arg(0, A['X']), A['X'], nf)), ('sqrt>0', RGoal('gt', A['R'], ZERO, nf)),
                   ('atan2.y==sqrt(1-<x,z>^2)', RGoal('eq', T.inv_arg('atan2', 0, 0, A['R']), A['R'], nf)), ('atan2.x==<x,z>', RGoal('eq', T.inv_arg('atan2', 0, 1, A['C']), A['C'], nf)),
                   ('sin(theta)==sqrt(1-<x,z>^2)', RGoal('eq', A['S'], A['R'], nf))]
-            return g + arc_goals(A, out, nf, fb)
+            return g + arc_goals(A, out, nf, fb, TOL[t])
         chk(S, U, name, spec, None, setup=lambda res, T: arc_setup(res, T, 'short'), split_side=True,
             bounds='all real quaternions x, y; every real a (a <= 0 -> x, a >= 1 -> y, else the slerp shape with theta = atan2(sqrt(1-c^2), c) resp. the affine blend above the threshold)')
     return run
@@ -563,24 +564,62 @@ def abstract_fp_arith(terms):
     return [z3.substitute(t_, *sub) if sub else t_ for t_ in terms], sub
 
 def job_acos_domain(t, fns):
+    """[fp] the branch decision and the acos call.  c = the code's own IEEE cosTheta term (argument of acos), pc = path condition of the acos call, eps_T = epsilon of the element type:
+    pc -> not (c > 1 - eps_T), pc or c > 1 - eps_T (the acos branch is taken exactly below the documented threshold of the element type), and (slerp) 0 <= c <= 1 - eps_T, c not NaN.
+    Sums/products are abstracted to arbitrary non-NaN floats - exact for this claim: x = (1,0,0,0), y = (c, sqrt(1-c^2), 0, 0) has the computed dot product c, which is how a counterexample
+    is replayed: the native function took the linear branch iff its result is bit-identical to the plain blend x*(1-t)+y*t (native lerp), compared with the documented decision c > 1 - eps_T."""
     w = 32 if t == 'f32' else 64; epsf = 2.0 ** -23 if t == 'f32' else 2.0 ** -52
+    def tofloat(b): return bits_to_float(b, w)
     def run(S):
         for fn in fns:
-            name = fn + '_' + t
+            name = fn + '_' + t; is_mix = fn == 'mix'
             res = sym_call(U, name, mode='fp')
             calls = [c for c in getattr(res.ex, 'call_log', []) if c[0] == 'acos']
             if len(calls) != 1:
                 S.engine_errors.append('c13.%s.fp: expected exactly one acos call site, found %d' % (name, len(calls))); continue
             _, _, (arg,), cond = calls[0]
             (arg_a, cond_a), sub = abstract_fp_arith([arg, cond])
-            hy = [cond_a] + [z3.Not(z3.fpIsNaN(v)) for _, v in sub]
-            thr = z3.fpSub(RNE, FPV(1.0, w), FPV(epsf, w))
+            nn = [z3.Not(z3.fpIsNaN(v)) for _, v in sub]; hy = [cond_a] + nn
+            thr = z3.fpSub(RNE, FPV(1.0, w), FPV(epsf, w)); thr_f = 1.0 - epsf; gt = z3.fpGT(arg_a, thr)
             fl = ['w_' + name]; bd = 'every IEEE sum/product in the argument and the path condition abstracted to an arbitrary non-NaN float (covers all finite inputs whose dot product is not NaN)'
+            def mk_replay(goal, hyps, hints, oname):
+                def attempt(m):
+                    cb = z3.simplify(z3.fpToIEEEBV(m.eval(arg_a, model_completion=True))).as_long(); cv = tofloat(cb)
+                    if cv != cv: return None
+                    sv = math.sqrt(max(0.0, 1.0 - cv * cv)); tv = 0.5
+                    bits = [[float_to_bits(1.0, w), 0, 0, 0], [cb, float_to_bits(sv, w), 0, 0], [float_to_bits(tv, w)]]
+                    info = {'unit': U.name, 'fn': name, 'obligation': oname, 'property': S.pid, 'inputs': [[hex(v) for v in r] for r in bits], 'cosTheta': repr(cv), 'documented_threshold_1-eps_T': repr(thr_f)}
+                    verd = []
+                    for cxx in ('g++', 'clang++-14'):
+                        out = U.call_native(name, bits, cxx=cxx)[0]; bl = U.call_native('lerp_' + t, bits, cxx=cxx)[0]
+                        linear = all(p == q or tofloat(p) == tofloat(q) for p, q in zip(out, bl))
+                        info['native_out_' + cxx] = [hex(v) for v in out]; info['native_blend_' + cxx] = [hex(v) for v in bl]; info['native_took_linear_branch_' + cxx] = linear
+                        verd.append(linear != (cv > thr_f))
+                    info['documented_decision_linear'] = cv > thr_f
+                    return ('reproduced' if any(verd) else 'not-reproduced'), info
+                def replay(m):
+                    r0 = attempt(m)
+                    if r0 and r0[0] == 'reproduced': return r0
+                    for h in hints:          # counterexamples right at the threshold are not observable (arc and chord round to the same floats): ask for one well inside
+                        r_, m2, _, _ = S.query(list(hyps) + [h, z3.Not(goal)], 20, 'z3')
+                        if r_ == 'sat':
+                            r1 = attempt(m2)
+                            if r1 and r1[0] == 'reproduced': return r1
+                    return r0 or ('not-reproduced', {'note': 'model value of cosTheta is NaN'})
+                return replay
+            lo_hint = [z3.fpLEQ(arg_a, FPV(1.0 - 4096 * epsf, w)), z3.fpLEQ(arg_a, FPV(1.0 - 64 * epsf, w))]      # linear branch taken too early
+            hi_hint = [z3.fpGEQ(arg_a, FPV(1.0, w))]                                                              # acos branch taken beyond the threshold (acos(1) = 0: 0/0)
             S.prove('c13.%s.fp.witness' % name, z3.BoolVal(False), hy, timeout=S.cap(20, 60), kind='witness', expect='sat', mandatory=False, functions=fl)
-            norep = lambda m: ('not-reproduced', {'note': 'counterexample of the abstraction (arbitrary floats for the sums/products); the argument of acos is not observable natively'})
-            S.prove('c13.%s.fp.acos-arg<=1-eps' % name, z3.fpLEQ(arg_a, thr), hy, timeout=S.cap(30, 90), kind='spec', functions=fl, bounds=bd, replay=norep)
-            S.prove('c13.%s.fp.acos-arg>=0' % name, z3.fpGEQ(arg_a, FPV(0.0, w)), hy, timeout=S.cap(30, 90), kind='spec', functions=fl, bounds=bd, replay=norep)
-            S.prove('c13.%s.fp.acos-arg-not-NaN' % name, z3.Not(z3.fpIsNaN(arg_a)), hy, timeout=S.cap(30, 90), kind='spec', functions=fl, bounds=bd, replay=norep)
+            for lab, goal, hyps, hints in (('decision: acos branch -> not (cosTheta > 1-eps_T)', z3.Implies(cond_a, z3.Not(gt)), nn, hi_hint),
+                                           ('decision: acos branch or cosTheta > 1-eps_T', z3.Or(cond_a, gt), nn, lo_hint)):
+                oname = 'c13.%s.fp.%s' % (name, lab)
+                S.prove(oname, goal, hyps, timeout=S.cap(30, 90), kind='spec', functions=fl, bounds=bd, replay=mk_replay(goal, hyps, hints, oname))
+            if not is_mix:
+                norep = lambda m: ('not-reproduced', {'note': 'counterexample of the abstraction (arbitrary floats for the sums/products); the argument of acos is not observable natively'})
+                oname = 'c13.%s.fp.acos-arg<=1-eps' % name; goal = z3.fpLEQ(arg_a, thr)
+                S.prove(oname, goal, hy, timeout=S.cap(30, 90), kind='spec', functions=fl, bounds=bd, replay=mk_replay(goal, hy, hi_hint, oname))
+                S.prove('c13.%s.fp.acos-arg>=0' % name, z3.fpGEQ(arg_a, FPV(0.0, w)), hy, timeout=S.cap(30, 90), kind='spec', functions=fl, bounds=bd, replay=norep)
+                S.prove('c13.%s.fp.acos-arg-not-NaN' % name, z3.Not(z3.fpIsNaN(arg_a)), hy, timeout=S.cap(30, 90), kind='spec', functions=fl, bounds=bd, replay=norep)
             # twin: the bound is attained (arg == 1-eps is reachable on the acos branch)
             S.prove('c13.%s.fp.twin(arg<1-eps)' % name, z3.fpLT(arg_a, thr), hy, timeout=S.cap(20, 60), kind='mutant-twin', expect='sat', mandatory=False, functions=fl)
     return run
@@ -590,7 +629,7 @@ def jobs(tier):
     for t in FT:
         J += [('slerp_' + t, job_slerp(t)), ('mix_' + t, job_slerp(t, 'mix', kind='mix')), ('symmetry_' + t, job_symmetry(t)), ('lerp_' + t, job_lerp(t)), ('dqlerp_' + t, job_dqlerp(t)),
               ('shortmix_' + t, job_shortmix(t)), ('fastmix_' + t, job_fastmix(t)), ('squad_' + t, job_squad(t)), ('intermediate_' + t, job_intermediate(t)),
-              ('acosdomain_' + t, job_acos_domain(t, ['slerp'] + [kname(k) for k in SPINS]))]
+              ('acosdomain_' + t, job_acos_domain(t, ['mix', 'slerp'] + [kname(k) for k in SPINS]))]
         for k in SPINS: J.append(('%s_%s' % (kname(k), t), job_slerp(t, kname(k), k=k)))
         for k in SPINS: J.append(('symmetry_%s_%s' % (kname(k), t), job_symmetry(t, kname(k), k)))
     for cfg, u in CFG_UNITS.items():
